@@ -15,7 +15,7 @@ func runC02(r *Run) {
 	r.NotDec = []string{"the numeric bounds x-1 <= redeemed <= x and the one-unit effect on co-delegators (arithmetic over all exchange rates)", "whole-domain behaviour of the conversion functions"}
 	r.Assume = []string{"LegacyDec.QuoInt / TruncateInt truncate toward zero"}
 	r.rule("C02.R1", "share delta balance: TotalShare and UndelegatableShare move by the same symbol; OperatorShare moves by it iff the staker is associated with that operator; associate/dissociate move exactly the staker's existing share", 8)
-	r.rule("C02.R2", "delegator-list maintenance with the shares", 5)
+	r.rule("C02.R2", "delegator-list maintenance with the shares", 8)
 	r.rule("C02.R3", "rounding direction and last-share rules", 5)
 
 	get := func(pkg, fn string) (*FnView, []DTerm) {
@@ -202,7 +202,76 @@ func runC02(r *Run) {
 				}
 			}
 		}
-		r.check(ok, "C02.R2", "RemoveShare|delete-when-zero", v.pos(v.Decl), "a delegator whose share reached zero is removed from the list", "DeleteStakerForOperator is not called under the shareIsZero result of UpdateDelegationState")
+		// ... and under nothing else: every other condition on the path must be the success of an earlier call
+		if ok {
+			for _, c := range v.CallsNamed("DeleteStakerForOperator") {
+				for _, f := range v.factsAt(c, false) {
+					if o := v.outcome(f); o != nil {
+						continue // zero flag of UpdateDelegationState, err == nil of earlier calls
+					}
+					ok = false
+					_ = f
+				}
+			}
+		}
+		r.check(ok, "C02.R2", "RemoveShare|delete-when-zero", v.pos(v.Decl), "a delegator whose share reached zero is removed from the list, whatever operation removed the share", "DeleteStakerForOperator is not called exactly under the shareIsZero result of UpdateDelegationState (an extra condition leaves zero-share stakers on the list)")
+		// the delegation-state records are addressed by (staker, asset, operator) in every accessor
+		nKeys := 0
+		for _, fv := range w.allViews() {
+			if !strings.HasPrefix(fv.ID(), "x/delegation/keeper") {
+				continue
+			}
+			// functions that open the delegation-state prefix
+			opens := false
+			ast.Inspect(fv.Decl.Body, func(n ast.Node) bool {
+				if sel, isSel := n.(*ast.SelectorExpr); isSel && sel.Sel.Name == "KeyPrefixRestakerDelegationInfo" {
+					opens = true
+				}
+				return true
+			})
+			if !opens {
+				continue
+			}
+			for _, c := range fv.CallsNamed("GetJoinedStoreKey") {
+				if len(c.Args) != 3 {
+					continue
+				}
+				// only keys that are used for a point access on a store
+				used := false
+				if as, isAs := fv.parent(c).(*ast.AssignStmt); isAs && len(as.Lhs) == 1 {
+					ko := fv.objOf(as.Lhs[0])
+					for _, pc := range fv.CallsNamed("Get", "Set", "Has", "Delete") {
+						if len(pc.Args) >= 1 && fv.objOf(pc.Args[0]) == ko {
+							used = true
+						}
+					}
+				} else if pc, isC := fv.parent(c).(*ast.CallExpr); isC {
+					nm := fv.calleeName(pc)
+					used = nm == "Get" || nm == "Set" || nm == "Has" || nm == "Delete"
+				}
+				if !used {
+					continue
+				}
+				nKeys++
+				role := func(e ast.Expr) string {
+					x := strings.ToLower(exprString(e))
+					switch {
+					case strings.Contains(x, "staker"):
+						return "staker"
+					case strings.Contains(x, "asset"):
+						return "asset"
+					case strings.Contains(x, "operator") || strings.Contains(x, "opaddr"):
+						return "operator"
+					}
+					return "?" + x
+				}
+				got := role(c.Args[0]) + "," + role(c.Args[1]) + "," + role(c.Args[2])
+				r.check(got == "staker,asset,operator", "C02.R2", fmt.Sprintf("delegation-state-key|%s#%d", fv.ID(), nKeys), fv.pos(c), "delegation-state records are addressed by (staker, asset, operator) in every accessor", fv.ID()+" builds the delegation-state key as ("+got+"): it reads/writes other records than the ones the rest of the module uses")
+			}
+		}
+		if nKeys < 3 {
+			r.bad("C02.R2", "delegation-state-key|count", "-", "delegation-state accessors found", fmt.Sprintf("only %d keyed accesses found", nKeys))
+		}
 	}
 	if v := w.View("x/delegation/keeper", "Keeper.UpdateDelegationState"); v != nil {
 		ok := false
@@ -293,8 +362,14 @@ func runC02(r *Run) {
 		// share > totalShare rejected
 		okG := false
 		ast.Inspect(v.Decl.Body, func(n ast.Node) bool {
-			if ifs, isIf := n.(*ast.IfStmt); isIf && strings.Contains(exprString(ifs.Cond), "stakerShare.GT(totalShare)") && v.terminates(ifs.Body) {
-				okG = true
+			if ifs, isIf := n.(*ast.IfStmt); isIf && v.terminates(ifs.Body) {
+				var fs []Fact
+				decompose(ifs.Cond, true, ifs, &fs)
+				for _, f := range mirrorFacts(fs) {
+					if c, okc := factCmp(f); okc && c.Op == ">" && exprString(c.L) == paramName(v, 0) && exprString(c.R) == paramName(v, 1) && len(fs) == 1 {
+						okG = true
+					}
+				}
 			}
 			return true
 		})
